@@ -92,7 +92,7 @@ func TestVerifC02(t *testing.T) {
 func TestVerifC03(t *testing.T) {
 	k := Knobs{Name: "C03", Units: 130, FlushGate: true, RangeKeys: true, Snapshots: true, SnapAudit: true, Batches: true, Maint: true, Ingest: true, Excise: true,
 		Ratchet: true, Iters: true, IterBurst: 15, AuditEvery: 8, NoAutoCompactionsPct: 15}
-	runDeck(t, "C03", "main", k, 200, 4000,
+	runDeck(t, "C03", "main", k, 600, 6000,
 		"Histories with up to 4 snapshots opened at random points and read (Get of every key, full scans, positioning bursts) after every later "+
 			"audit point across flushes, compactions, ingests and format upgrades; keys inside spans excised after the snapshot was taken are not "+
 			"audited through it (documented exception).", nil)
